@@ -7,6 +7,8 @@ import (
 	"go/ast"
 	"go/token"
 	"go/types"
+	"os"
+	"path/filepath"
 	"strings"
 )
 
@@ -252,12 +254,6 @@ func (c *Ctx) evalAppend(x *ast.CallExpr, s *State) Value {
 	st := c.typeOf(x).Underlying().(*types.Slice)
 	elem := st.Elem()
 	base := c.eval(x.Args[0], s).(SliceV)
-	c.note("append yields a fresh backing array (the old slice value is assumed dead or not written through afterwards)")
-	// new array
-	ref := c.fresh("app", sInt)
-	s.assume(lt("0", ref))
-	c.freshRefFacts(s, ref)
-	newLen := base.Len
 	type piece struct {
 		single []string // leaf terms of one element
 		sl     *SliceV
@@ -281,6 +277,66 @@ func (c *Ctx) evalAppend(x *ast.CallExpr, s *State) Value {
 			pieces = append(pieces, piece{single: flatten(v, elem), n: "1"})
 		}
 	}
+	total := "0"
+	for _, p := range pieces {
+		total = add(total, p.n)
+	}
+	// A base cut with an explicit high bound (x[:k]) whose capacity has room: Go writes the new elements into the
+	// shared backing array. Decided with the solver on the current path: always fits / may fit / never fits.
+	if base.Tail && c.dry == 0 {
+		fits := le(add(base.Len, total), base.Cap)
+		switch {
+		case c.provableNow(s, fits):
+			c.note("append to a re-sliced base that fits its capacity is modelled in place (writes through to the shared array)")
+			c.noteWrite(s, memKey(elem), base.Ref)
+			lo := add(base.Off, base.Len)
+			for li, l := range leaves(elem) {
+				key := memKey(elem) + l
+				m := c.heapGet(s, key, sA2)
+				cur := sel(m, base.Ref)
+				pos := lo
+				for _, p := range pieces {
+					switch {
+					case p.single != nil:
+						cur = store(cur, pos, p.single[li])
+					case p.sl != nil:
+						src := sel(m, p.sl.Ref)
+						na := c.fresh("apparr", sA1)
+						s.assume(forall([]string{"k"}, "(! "+ite(and(le(pos, "k"), lt("k", add(pos, p.n))), eq(sel(na, "k"), sel(src, add(p.sl.Off, sub("k", pos)))), eq(sel(na, "k"), sel(cur, "k")))+" :pattern ((select "+na+" k)))"))
+						cur = na
+					default:
+						na := c.fresh("apparr", sA1)
+						s.assume(forall([]string{"k"}, "(! "+ite(and(le(pos, "k"), lt("k", add(pos, p.n))), eq(sel(na, "k"), app("gs.at", p.str, sub("k", pos))), eq(sel(na, "k"), sel(cur, "k")))+" :pattern ((select "+na+" k)))"))
+						cur = na
+					}
+					pos = add(pos, p.n)
+				}
+				c.heapSet(s, key, sA2, store(m, base.Ref, cur))
+			}
+			nl := c.nameValue(s, "applen", IntV{add(base.Len, total)}).(IntV).T
+			return SliceV{base.Ref, base.Off, nl, base.Cap, true}
+		case !c.provableNow(s, not(fits)):
+			// may fit: the elements of the shared array just beyond the base become unknown (and count as written);
+			// the result itself is modelled as a copy
+			c.note("append to a re-sliced base that may fit its capacity: the shared array's elements beyond the base are havocked; the result is modelled as a copy")
+			c.noteWrite(s, memKey(elem), base.Ref)
+			lo := add(base.Off, base.Len)
+			for _, l := range leaves(elem) {
+				key := memKey(elem) + l
+				m := c.heapGet(s, key, sA2)
+				old := sel(m, base.Ref)
+				na := c.fresh("apphavoc", sA1)
+				s.assume(forall([]string{"k"}, "(! "+implies(not(and(le(lo, "k"), lt("k", add(lo, total)))), eq(sel(na, "k"), sel(old, "k")))+" :pattern ((select "+na+" k)))"))
+				c.heapSet(s, key, sA2, store(m, base.Ref, na))
+			}
+		}
+	}
+	c.note("append yields a fresh backing array (the old slice value is assumed dead or not written through afterwards)")
+	// new array
+	ref := c.fresh("app", sInt)
+	s.assume(lt("0", ref))
+	c.freshRefFacts(s, ref)
+	newLen := base.Len
 	for li, l := range leaves(elem) {
 		key := memKey(elem) + l
 		m := c.heapGet(s, key, sA2)
@@ -313,7 +369,35 @@ func (c *Ctx) evalAppend(x *ast.CallExpr, s *State) Value {
 	cp := c.fresh("appcap", sInt)
 	s.assume(and(le(nl, cp), le(cp, maxLen)))
 	c.note("append: the resulting length is assumed to stay below 2^47")
-	return SliceV{ref, "0", nl, cp}
+	return SliceV{ref, "0", nl, cp, false}
+}
+
+// provableNow: is goal valid under the assumptions of the current path? (one quick synchronous solver call; used to
+// choose between sound models of a statement, never to discharge an obligation)
+func (c *Ctx) provableNow(s *State, goal string) bool {
+	if goal == "true" {
+		return true
+	}
+	if goal == "false" {
+		return false
+	}
+	o := &Oblig{Name: c.con.Key + "/model-choice", Kind: "probe", Func: c.con.Key, Assumes: s.assumes, Goal: goal, decls: c}
+	text := c.eng.smtText(o)
+	base := c.eng.outBase
+	if base == "" {
+		base = c.eng.verif
+	}
+	dir := filepath.Join(base, "out", "probe")
+	os.MkdirAll(dir, 0o755)
+	f, err := os.CreateTemp(dir, "q*.smt2")
+	if err != nil {
+		return false
+	}
+	f.WriteString(text)
+	f.Close()
+	defer os.Remove(f.Name())
+	r := runSolver(solvers[0], f.Name(), 3, "")
+	return r.verdict == "unsat"
 }
 
 func (c *Ctx) evalCopy(x *ast.CallExpr, s *State) Value {
@@ -444,7 +528,17 @@ func (c *Ctx) evalCallWithArgs(x *ast.CallExpr, s *State, pre []Value) Value {
 	}
 	_ = recvT
 	args := evalArgs()
+	// at-clauses of a call may name the evaluated arguments arg0, arg1, ... (non-variadic positions)
+	c.atArgs = map[string]bound{}
+	if sig, ok := callee.Type().(*types.Signature); ok {
+		for i, a := range args {
+			if i < sig.Params().Len() && !(sig.Variadic() && i == sig.Params().Len()-1) {
+				c.atArgs[fmt.Sprintf("arg%d", i)] = bound{a, sig.Params().At(i).Type()}
+			}
+		}
+	}
 	c.atClauses(s, fmt.Sprintf("call %s#%d", calleeShortName(x), c.callOrd[x]), x.Pos())
+	c.atArgs = nil
 	return c.callFunc(x, s, callee, recv, args)
 }
 
@@ -1011,6 +1105,20 @@ func (c *Ctx) specialCall(x *ast.CallExpr, s *State, callee *types.Func, key str
 		return NoneV{}, true
 	case "binary.bigEndian.AppendUint16", "binary.bigEndian.AppendUint32", "binary.bigEndian.AppendUint64":
 		// not used by the functions under contract
+	case "sync.(*Pool).Get":
+		// pool discipline (assumption): an object handed out by a sync.Pool is referenced by nobody else - it is
+		// treated like a new allocation (the pointer itself, or the backing array of a pooled []byte)
+		v := c.fresh("pooled", sInt)
+		c.note("sync.Pool.Get: the object handed out is exclusively owned (no use after Put anywhere) - treated as newly allocated; its contents are arbitrary")
+		fn := sanitize("ifaceval.[]byte#ref")
+		c.declareFun(fn, 1, sInt)
+		inner := app(fn, v)
+		al := c.heapGet(s, "X.alloc", sA1)
+		s.assume(or(eq(v, "0"), eq(sel(al, v), "0")))
+		s.assume(or(eq(inner, "0"), eq(sel(al, inner), "0")))
+		s.assume(not(eq(v, inner)))
+		c.heapSetQuiet(s, "X.alloc", sA1, store(store(al, v, "1"), inner, "1"))
+		return IntV{v}, true
 	case "sync.(*Once).Do":
 		// the function runs iff no earlier Do of this Once has run (ghost flag X.oncedone[once]); A2: Once is atomic
 		if lit, ok := unparen(x.Args[0]).(*ast.FuncLit); ok {
